@@ -238,6 +238,17 @@ def plan(prop, tier):
             P.append({"fl": fl, "args": ["sentinels", "--shard", "0/1"], "timeout": 600, "leaks_ok": False, "transcript": "sentinels-0"})
     else:
         raise SystemExit(f"unknown property {prop}")
+    if not q:
+        # the thorough tier has minutes, not seconds: deepen the cheap (native, non-sanitizer)
+        # random workloads by a constant factor
+        boost = int(os.environ.get("VERIF_THOROUGH_BOOST", "6"))
+        for sh in P:
+            if sh["fl"] in ("release", "debug", "ext", "extdebug") and sh["args"][0] in ("hist", "sets", "meta", "clones", "serde", "plain", "limits", "iterstates", "dropbomb", "prefix", "par", "fault"):
+                a = sh["args"]
+                if "--n" in a:
+                    i = a.index("--n")
+                    a[i + 1] = str(int(a[i + 1]) * boost)
+                sh["timeout"] = max(sh["timeout"], 5400)
     return P
 
 # properties whose statement covers "the call completes / is memory-safe": a crash of a shard
@@ -559,6 +570,14 @@ def main():
             continue
         # crash, sanitizer report or interpreter error
         text = (r["err"] or "") + "\n" + (r["out"] or "")
+        # violations the shard reported before it died are not lost with its RESULT line
+        if r["res"] is None and prop != "C17":
+            ol = (r["out"] or "").splitlines()
+            for i, line in enumerate(ol):
+                m = re.match(r"VIOLATION property=(\S+) replay=(\S+)", line)
+                if m and m.group(1) == prop:
+                    det = ol[i + 1].strip()[8:] if i + 1 < len(ol) and ol[i + 1].startswith("  detail") else "(no detail)"
+                    violations.append({"msg": det, "replay": m.group(2)})
         kind = "crash"
         if "AddressSanitizer" in text or "LeakSanitizer" in text or "MemorySanitizer" in text or "ThreadSanitizer" in text:
             kind = "sanitizer"
